@@ -557,4 +557,31 @@ theorem renderWithTail_spec (fmt : R → List UInt8) (pr : List UInt8 → Option
   intro hm
   simpa [needsBnd, hb] using hm
 
+
+/-- side conditions of the indirect-object theorem, as a property of a text -/
+def IndirectOK (pr : List UInt8 → Option R) (id gen : Nat) (v : Prim R) (tail txt : List UInt8) : Prop :=
+  ∃ a g1 b g2 g3 tv g4 g5, txt = [] ++ a ++ g1 ++ b ++ g2 ++ kwObj ++ g3 ++ tv ++ g4 ++ kwEndobj ++ (g5 ++ tail) ∧
+    NatTok a id ∧ NatTok b gen ∧ Gap g1 ∧ g1 ≠ [] ∧ Gap g2 ∧ g2 ≠ [] ∧ Gap g3 ∧ Spells pr v tv ∧ Gap g4 ∧ Gap g5 ∧
+    Bnd (g3 ++ tv) ∧ (PdfSyntax.needsBnd v = true → g4 ≠ []) ∧ Bnd (g5 ++ tail)
+
+theorem indirectOK_mk (pr : List UInt8 → Option R) (id gen : Nat) (v : Prim R) (tail a g1 b g2 g3 tv g4 g5 : List UInt8)
+    (h1 : NatTok a id) (h2 : NatTok b gen) (h3 : Gap g1) (h4 : g1 ≠ []) (h5 : Gap g2) (h6 : g2 ≠ []) (h7 : Gap g3)
+    (h8 : Spells pr v tv) (h9 : Gap g4) (h10 : Gap g5) (h11 : Bnd (g3 ++ tv)) (h12 : PdfSyntax.needsBnd v = true → g4 ≠ [])
+    (h13 : Bnd (g5 ++ tail)) :
+    IndirectOK pr id gen v tail (a ++ g1 ++ b ++ g2 ++ kwObj ++ g3 ++ tv ++ g4 ++ kwEndobj ++ g5 ++ tail) :=
+  ⟨a, g1, b, g2, g3, tv, g4, g5, by simp, h1, h2, h3, h4, h5, h6, h7, h8, h9, h10, h11, h12, h13⟩
+
+/-- `id gen obj value endobj tail` as the printer writes it: all the side conditions of the indirect-object
+    theorem hold -/
+theorem renderIndirect_spec (fmt : R → List UInt8) (pr : List UInt8 → Option R) (id gen : Nat) (v : Prim R)
+    (tail : List UInt8) (h : Renderable fmt pr v) (t : Tape) :
+    IndirectOK pr id gen v tail (renderIndirect fmt id gen v tail t).1 := by
+  simp only [renderIndirect]
+  apply indirectOK_mk pr id gen v tail _ _ _ _ _ _ _ _ (natTok_spec' _ _) (natTok_spec' _ _)
+    (gap_spec true _).1 ((gap_spec true _).2 rfl) (gap_spec true _).1 ((gap_spec true _).2 rfl) (gap_spec _ _).1
+    (render_spells fmt pr v h _) (gap_spec _ _).1 (gap_spec _ t).1 ?_ ?_ ?_
+  · apply gap_bnd_must; intro hm; simpa using hm
+  · intro hb; exact (gap_spec _ _).2 (by simpa [needsBnd] using hb)
+  · apply gap_bnd_must; intro hm; simpa using hm
+
 end PdfSpec
